@@ -172,6 +172,29 @@ def handle_discipline(ct: Container, rep, rule="handle-discipline"):
         else:
             rep.fail(rule, mod, "Tdf.__exit__", ex.node, f"`{what[k]}` is not executed on every path of __exit__ (missing, conditional or after an early return)",
                      construct=f"Tdf.__exit__ :: {what[k]}")
+    # __exit__ tells `with` to swallow the exception leaving the block when it returns something truthy: a refusal raised inside
+    # `with tdf:` would then never reach the caller.  Every return of __exit__ is bare / None / False.
+    truthy_exit = False
+    for r_ in [x for x in walk_no_nested(ex.node) if isinstance(x, ast.Return)]:
+        if r_.value is None or (isinstance(r_.value, ast.Constant) and r_.value.value in (None, False)):
+            continue
+        truthy_exit = True
+        rep.fail(rule, mod, "Tdf.__exit__", r_, f"__exit__ returns `{norm(r_.value)}`: a truthy result makes the with-statement swallow the exception that left the block, so a refusal "
+                 "(PermissionError, OutsideOfContextError, ValueError) raised inside `with tdf:` does not reach the caller", construct="Tdf.__exit__ return value")
+    if not truthy_exit:
+        rep.ok(rule, "Tdf.__exit__: returns nothing truthy on any path (exceptions leaving the block propagate)")
+    # a generator method must not hold an implicit context open across its yields: between two items the caller's code runs with the
+    # handle open and the object marked as inside a context (mutators pass their guards), and an abandoned iteration never closes it
+    ngen = 0
+    for f in tdf.all_funcs():
+        for w_ in [x for x in walk_no_nested(f.node) if isinstance(x, ast.With)]:
+            if any(isinstance(i_.context_expr, ast.Name) and i_.context_expr.id == "self" for i_ in w_.items) and \
+                    any(isinstance(y, (ast.Yield, ast.YieldFrom)) for b in w_.body for y in ast.walk(b)):
+                ngen += 1
+                rep.fail(rule, mod, f"Tdf.{f.name}", w_, "`with self:` is held open across a yield: while the caller consumes the items the implicitly opened handle stays open and the "
+                         "object counts as inside a context", construct=f"Tdf.{f.name} yields inside `with self`")
+    if not ngen:
+        rep.ok(rule, "no method of Tdf yields from inside `with self:`")
     # no method re-enters the object from inside a context: leaving the inner `with self:` runs __exit__, which closes the handle and
     # resets mode and flag of the SURROUNDING session (every later operation of that session is then refused)
     from ..facts import path_returns
@@ -509,6 +532,12 @@ def eval_guard(cond, state):
             return inside
         if isinstance(n, ast.Attribute) and n.attr == "_mode":
             return mode
+        # self.<handle>.writable(): the handle's own answer - True only for one opened read-write.  Asked of a closed handle it
+        # raises ValueError, of a missing one AttributeError: either way the call ends there, before any effect, which for a
+        # refusing guard `if not handle.writable(): raise` is the same outcome as False
+        if isinstance(n, ast.Call) and isinstance(n.func, ast.Attribute) and n.func.attr == "writable" and not n.args and not n.keywords \
+                and isinstance(n.func.value, ast.Attribute) and isinstance(n.func.value.value, ast.Name) and n.func.value.value.id == "self":
+            return handle == "rw"
         if isinstance(n, ast.Constant):
             return n.value
         if isinstance(n, ast.Call) and norm(n.func) == "bool" and len(n.args) == 1:
@@ -562,11 +591,43 @@ def body_guards(ct: Container, ff):
     for st in walk_no_nested(ff.f.node):
         if isinstance(st, ast.If) and st.body and isinstance(st.body[-1], ast.Raise) and not st.orelse:
             names = {n.attr for n in ast.walk(st.test) if isinstance(n, ast.Attribute) and is_self_attr(n)}
-            if names and names <= {"_mode", "_inside_context"}:
+            if names and names <= {"_mode", "_inside_context", ct.handle}:
                 cn = ff.cfg.node_of(st)
                 if effs and all(ff.cfg.dominates(cn, e.node) for e in effs):
                     out.append(st.test)
     return out
+
+
+def table_effects_need_writable(ct: Container, rep, rule="session-table-follows-file"):
+    """add_block / remove_block change the in-memory table before they write.  In an access state where their guards let the call
+    through but the open handle cannot write (a plain context; a context entered read-only in which allow_write() was called
+    afterwards), the handle refuses the first write - after the table was changed: for the rest of that session presence checks,
+    length and lookups describe a file that does not exist.  So over every reachable access state inside a context, the guards
+    that dominate all table and file effects refuse unless the handle is open read-write."""
+    model = Model(ct)
+    states, _ = model.reachable()
+    wg = wrapper_guards(ct)
+    mod = ct.mod.path.name
+    _TE = ("table_store", "table_append", "table_remove", "table_rebind")
+    for name in ("add_block", "remove_block"):
+        ff = ct.facts(name)
+        decs = [d for d in ff.f.decorators if d in wg]
+        effs = ff.ev(*M.FILE_EFFECTS, *_TE)
+        conds = [wg[d][0] for d in decs if wg[d][0] is not None]
+        for st in walk_no_nested(ff.f.node):
+            if isinstance(st, ast.If) and st.body and isinstance(st.body[-1], ast.Raise) and not st.orelse:
+                names = {n.attr for n in ast.walk(st.test) if isinstance(n, ast.Attribute) and isinstance(n.value, ast.Name) and n.value.id == "self"}
+                if names and names <= {"_mode", "_inside_context", ct.handle} and effs and all(ff.cfg.dominates(ff.cfg.node_of(st), e.node) for e in effs):
+                    conds.append(st.test)
+        bad = [s_ for s_ in sorted(states, key=str) if s_[0] and s_[2] != "rw" and not any(eval_guard(c, s_) for c in conds)]
+        if not bad:
+            rep.ok(rule, f"Tdf.{name}: in every reachable in-context access state without a read-write handle the call is refused before any table or file effect", nontrivial=True)
+        else:
+            s_ = bad[0]
+            how = "a plain (read-only) context" if s_[1] == "rb" else "a context entered read-only in which allow_write() was called afterwards"
+            rep.fail(rule, mod, f"Tdf.{name}", ff.f.node, f"in access state (inside={s_[0]}, mode={s_[1]!r}, handle={s_[2]}) - {how} - nothing refuses the call before the in-memory table is changed: "
+                     "the handle rejects the write only afterwards, and for the rest of the session presence checks, length and lookups report a table the file does not have",
+                     construct=f"Tdf.{name} read-only refusal")
 
 
 def guard_table(ct: Container, rep, rule="guard-table"):
